@@ -1281,3 +1281,28 @@ Proof.
   unfold shape. revert qs. induction es as [|e r IH]; intros qs; [reflexivity|]. cbn [edges_put].
   destruct (sel e); cbn [map]; rewrite ?edge_put_name, ?edge_put_kind, IH; reflexivity.
 Qed.
+
+(** the split part of unflatten_and_split, alone *)
+Lemma sub_kwargs_lookup kw expected name t split glob :
+  ~ In "" expected -> unflatten_and_split kw expected = (split, glob) -> In name expected ->
+  kw_get t (sub_kwargs name split) = kw_last (name :: t) kw /\ NoDup (map fst (sub_kwargs name split)).
+Proof.
+  intros He Hu Hin. pose proof (unflatten_inv kw expected He) as (Hg & Hs & Hn). rewrite Hu in *. cbn [fst snd] in *.
+  split; [|apply Hn]. rewrite Hs. apply mem_In in Hin. rewrite Hin. reflexivity.
+Qed.
+Lemma glob_lookup kw expected t split glob :
+  ~ In "" expected -> unflatten_and_split kw expected = (split, glob) ->
+  kw_get t glob = (if mem (head_of t) expected then None else kw_last t kw) /\ NoDup (map fst glob).
+Proof.
+  intros He Hu. pose proof (unflatten_inv kw expected He) as (Hg & Hs & Hn). pose proof (unflatten_glob_NoDup kw expected) as Hnd.
+  rewrite Hu in *. cbn [fst snd] in *. split; [apply Hg | exact Hnd].
+Qed.
+(** all values of [kw_of names v] are numbers *)
+Lemma kw_of_get names : forall v K, length v = length names -> In K names -> exists y, kw_get K (kw_of names v) = Some (V y).
+Proof.
+  induction names as [|k names IH]; intros [|x v] K Hl Hin; cbn [length] in Hl; try discriminate; [destruct Hin|].
+  unfold kw_of. cbn [vals map combine kw_get]. destruct (path_eqb K k) eqn:E; [exists x; reflexivity|].
+  destruct Hin as [->|Hin]; [rewrite path_eqb_refl in E; discriminate|]. apply (IH v K); [lia | exact Hin].
+Qed.
+Lemma kw_of_keys names v : length v = length names -> map fst (kw_of names v) = names.
+Proof. intros H. unfold kw_of. apply map_fst_combine. unfold vals. rewrite map_length. lia. Qed.
